@@ -1468,6 +1468,25 @@ pub mod verif_hooks {
         ends
     }
 
+    /// Occupies one slot of the listener queue for requests with (`wait_queue`) or without the wait flag.
+    pub fn mux_listen_fill<Si, St>(mux: &ChMux<Si, St>, wait_queue: bool) -> bool {
+        match &mux.listen_tx {
+            Some((wait_tx, no_wait_tx)) => {
+                let q = if wait_queue { wait_tx } else { no_wait_tx };
+                q.try_send(RemoteConnectMsg::ClientDropped).is_ok()
+            }
+            None => false,
+        }
+    }
+
+    /// Debug aid: queue the end-of-stream marker for a port directly.
+    pub fn mux_port_push_finished<Si, St>(mux: &mut ChMux<Si, St>, local_port: u32) -> bool {
+        match mux.ports.get_mut(&local_port) {
+            Some(PortState::Connected { receiver_tx_data: Some(tx), .. }) => tx.send(PortReceiveMsg::Finished).is_ok(),
+            _ => false,
+        }
+    }
+
     pub struct MuxFlags {
         pub all_clients_dropped: bool,
         pub remote_client_dropped: bool,
